@@ -25,6 +25,7 @@ import (
 	"regexp/syntax"
 	"sort"
 	"strings"
+	"sync"
 	"testing"
 	"time"
 	"unicode/utf8"
@@ -51,7 +52,7 @@ var c09Markers = []struct{ Reason, Text string }{
 	{"trigrams", "NOT-INDEXED: contains too many trigrams"},
 }
 
-const c09OpaqueLimit = 2500 // contents longer than this are logged as length + checksum only
+const c09OpaqueLimit = 5000 // contents longer than this are logged as length + checksum only
 
 type c09Sym struct {
 	S, E                int // rune offsets
@@ -274,6 +275,9 @@ func (d *c09Doc) indexDoc() index.Document {
 
 // materialise one repository as simple shard(s) in dir
 func (b *c09Build) simple(dir string, n int, r *c09Repo) ([]string, error) {
+	if err := os.MkdirAll(dir, 0o755); err != nil {
+		return nil, err
+	}
 	if r.Via == "shard" {
 		desc := r.Desc
 		sb, err := index.NewShardBuilder(&desc)
@@ -513,12 +517,51 @@ func c09Read(path string, shard int, out *c09M, files *[]*c09File, searchers *[]
 type c09Runner struct {
 	tr   *verifkit.Trace
 	work string
-	id   int
 }
 
-func (rn *c09Runner) run(b *c09Build) {
-	rn.id++
-	id := rn.id
+// one build being executed: its events in order (build first); every later event refers to the
+// build event by the number of lines back
+type c09Exec struct {
+	work string
+	evs  []c09M
+}
+
+func (rn *c09Exec) emit(ev c09M) {
+	ev["back"] = len(rn.evs)
+	rn.evs = append(rn.evs, ev)
+}
+
+// runAll executes the builds on a few goroutines (a ShardBuilder allocates tens of megabytes)
+// and writes their events in the order of the builds.
+func (rn *c09Runner) runAll(builds []*c09Build) {
+	nw := verifkit.EnvInt("C09_WORKERS", 6)
+	results := make([][]c09M, len(builds))
+	next := make(chan int, len(builds))
+	for i := range builds {
+		next <- i
+	}
+	close(next)
+	var wg sync.WaitGroup
+	for w := 0; w < nw; w++ {
+		wg.Add(1)
+		go func() {
+			defer wg.Done()
+			for i := range next {
+				ex := &c09Exec{work: rn.work}
+				ex.run(builds[i], i+1)
+				results[i] = ex.evs
+			}
+		}()
+	}
+	wg.Wait()
+	for _, evs := range results {
+		for _, ev := range evs {
+			rn.tr.Emit(ev)
+		}
+	}
+}
+
+func (rn *c09Exec) run(b *c09Build, id int) {
 	dir, err := os.MkdirTemp(rn.work, "c09b")
 	if err != nil {
 		panic(err)
@@ -539,7 +582,7 @@ func (rn *c09Runner) run(b *c09Build) {
 		}
 		repos = append(repos, c09M{"via": r.Via, "desc": c09Desc(&r.Desc), "docs": docs})
 	}
-	rn.tr.Emit(c09M{"ev": "build", "id": id, "family": b.Family, "script": b.Script, "path": b.Path,
+	rn.evs = append(rn.evs, c09M{"ev": "build", "id": id, "family": b.Family, "script": b.Script, "path": b.Path,
 		"opts": b.optsEvent(hash), "repos": repos})
 
 	out := c09M{"ev": "readback", "id": id, "outcome": "ok", "msg": "", "nshards": 0, "repos": []c09M{}, "meta": []c09M{}, "docs": []c09M{}}
@@ -555,12 +598,12 @@ func (rn *c09Runner) run(b *c09Build) {
 	var stageErr error
 	if p := verifkit.Catch(func() { paths, stage, stageErr = b.materialise(dir) }); p != nil {
 		out["outcome"], out["msg"] = "panic:"+stage, fmt.Sprint(p)
-		rn.tr.Emit(out)
+		rn.emit(out)
 		return
 	}
 	if stageErr != nil {
 		out["outcome"], out["msg"] = "error:"+stage, stageErr.Error()
-		rn.tr.Emit(out)
+		rn.emit(out)
 		return
 	}
 	out["nshards"] = len(paths)
@@ -581,7 +624,7 @@ func (rn *c09Runner) run(b *c09Build) {
 		docs = append(docs, f.ev)
 	}
 	out["docs"] = docs
-	rn.tr.Emit(out)
+	rn.emit(out)
 	if out["outcome"] != "ok" {
 		return
 	}
@@ -591,7 +634,7 @@ func (rn *c09Runner) run(b *c09Build) {
 
 // symbol-substring probes: the text of one symbol of one document searched as sym:<text>
 // (trigram path, rune-offset sections, sampled rune->byte offsets).
-func (rn *c09Runner) symsub(b *c09Build, id int, searchers []zoekt.Searcher) {
+func (rn *c09Exec) symsub(b *c09Build, id int, searchers []zoekt.Searcher) {
 	if b.SymSub <= 0 {
 		return
 	}
@@ -664,7 +707,7 @@ func (rn *c09Runner) symsub(b *c09Build, id int, searchers []zoekt.Searcher) {
 				ev["ranges"] = rs
 			}
 		}
-		rn.tr.Emit(ev)
+		rn.emit(ev)
 	}
 }
 
@@ -683,7 +726,7 @@ func c09Ordered(desc *zoekt.Repository, branches []string) []string {
 }
 
 // trigram / substring probes through the n-gram index (b-tree buckets, posting lists)
-func (rn *c09Runner) tri(b *c09Build, id int, searchers []zoekt.Searcher) {
+func (rn *c09Exec) tri(b *c09Build, id int, searchers []zoekt.Searcher) {
 	for _, tq := range b.Tri {
 		q := &query.Substring{Pattern: tq.Pat, CaseSensitive: true, Content: !tq.FileName, FileName: tq.FileName}
 		ev := c09M{"ev": "tri", "id": id, "pat": verifkit.Runes(tq.Pat), "fileName": tq.FileName, "outcome": "ok", "msg": "", "files": []c09M{}}
@@ -709,7 +752,7 @@ func (rn *c09Runner) tri(b *c09Build, id int, searchers []zoekt.Searcher) {
 			}
 		}
 		ev["files"] = files
-		rn.tr.Emit(ev)
+		rn.emit(ev)
 	}
 }
 
@@ -937,6 +980,12 @@ func c09RandBuild(rng *rand.Rand, n int) *c09Build {
 		}
 		c09FixDuplicates(r)
 		b.Repos = append(b.Repos, r)
+		for _, d := range r.Docs {
+			if c09Kind(d.Content) != "text" {
+				// the trigram decision on text that is not interpreted is outside the specification
+				b.TrigramMax = 20000
+			}
+		}
 	}
 	return b
 }
@@ -1295,6 +1344,7 @@ func TestVerif_C09_Replay(t *testing.T) {
 	rn := c09Open(t)
 	defer rn.tr.Close()
 	desc := c09Repo1("tlc/repo", 3, "main", "dev")
+	var builds []*c09Build
 	for _, raw := range scripts {
 		var sc c09Script
 		if err := json.Unmarshal(raw, &sc); err != nil {
@@ -1316,19 +1366,19 @@ func TestVerif_C09_Replay(t *testing.T) {
 			other := c09Repo1("tlc/other", 4, "main")
 			b.Repos = append(b.Repos, &c09Repo{Via: "shard", Desc: other, Docs: []c09Doc{c09Doc1("o.txt", "other repo\n", "main")}})
 		}
-		rn.run(b)
+		builds = append(builds, b)
 	}
+	rn.runAll(builds)
 }
 
 // V: corner-case families and seeded random builds
 func TestVerif_C09_Generated(t *testing.T) {
 	rn := c09Open(t)
 	defer rn.tr.Close()
-	for _, b := range c09Corners(verifkit.Rng(1)) {
-		rn.run(b)
-	}
-	n := verifkit.EnvInt("C09_RANDOM", verifkit.Pick(160, 2500))
+	builds := c09Corners(verifkit.Rng(1))
+	n := verifkit.EnvInt("C09_RANDOM", verifkit.Pick(120, 2500))
 	for i := 0; i < n; i++ {
-		rn.run(c09RandBuild(verifkit.Rng(int64(100+i)), i))
+		builds = append(builds, c09RandBuild(verifkit.Rng(int64(100+i)), i))
 	}
+	rn.runAll(builds)
 }
